@@ -81,8 +81,8 @@ impl Exchange {
         }
         // 2^127
         let pow: [u64; 4] = [
-            0x8000000000000000,
             0x0000000000000000,
+            0x8000000000000000,
             0x0000000000000000,
             0x0000000000000000,
         ];
@@ -155,8 +155,8 @@ impl Exchange {
         }
         // 2^127
         let pow: [u64; 4] = [
-            0x8000000000000000,
             0x0000000000000000,
+            0x8000000000000000,
             0x0000000000000000,
             0x0000000000000000,
         ];
